@@ -111,7 +111,7 @@ class Indexing(AH.ArrayHistory):
 
     def gen(self, rng, i, tier):
         ops = [self.gen_create(rng)]
-        for _ in range(rng.randint(3, 16)):
+        for _ in range(rng.randint(3, 40 if tier == 'thorough' and rng.random() < 0.3 else 16)):
             ops.append(self.gen_op(rng))
         if rng.random() < 0.35:
             ops.append({'op': 'ctx', 'do': 'exit'})
